@@ -1192,16 +1192,6 @@ def join(
         right >>= rename({col: col.name + user_suffix for col in right})
 
     elif right_names & left_names:
-        cnt = 0
-        for name in right_names:
-            suffixed = name + suffix + (f"_{cnt}" if cnt > 0 else "")
-            while suffixed in left_names:
-                cnt += 1
-                suffixed = name + suffix + f"_{cnt}"
-
-        if cnt > 0:
-            suffix += f"_{cnt}"
-
         on_uuids = set(
             col._uuid for col in itertools.chain(*(pred.iter_subtree_preorder() for pred in on)) if isinstance(col, Col)
         )
@@ -1210,10 +1200,21 @@ def join(
         if not (right_names - right_on_names) & left_names:
             # If nothing except join columns clashes, we only rename the clashing
             # columns on the right.
-            right >>= rename({col: col.name + suffix for col in right if col.name in left_names})
-
+            to_rename = right_names & left_names
         else:
-            right >>= rename({col: col.name + suffix for col in right})
+            to_rename = right_names
+
+        # Append an integer to the suffix until the renamed columns neither collide
+        # with a left column nor with a right column keeping its name.
+        cnt = 0
+        while {name + suffix + (f"_{cnt}" if cnt > 0 else "") for name in to_rename} & (
+            left_names | (right_names - to_rename)
+        ):
+            cnt += 1
+        if cnt > 0:
+            suffix += f"_{cnt}"
+
+        right >>= rename({col: col.name + suffix for col in right if col.name in to_rename})
 
     if len(on) == 0:
         on = LiteralCol(True)
